@@ -8,6 +8,7 @@ use crate::{
 /// Contains the implementation of Scancode Set 1.
 ///
 /// See the OS dev wiki: <https://wiki.osdev.org/PS/2_Keyboard#Scan_Code_Set_1>
+#[cfg_attr(feature = "verif-hooks", derive(Debug, Clone, PartialEq, Eq))]
 pub struct ScancodeSet1 {
     state: DecodeState,
 }
